@@ -124,12 +124,11 @@ fn s<E: std::fmt::Display>(e: E) -> String {
 }
 
 impl Sut {
-    pub fn new(layout: Layout, policy: Pol, strat: Strat, hooks: Hooks, dir: &Path) -> Result<Self, String> {
+    pub fn new(layout: Layout, policy: Pol, strat: Strat, hooks: Hooks, l0_bytes: Option<u32>, dir: &Path) -> Result<Self, String> {
         let rt = tokio::runtime::Builder::new_current_thread().enable_time().build().map_err(s)?;
-        let mem = |max_entries: usize| MemoryCacheConfig {
+        let mem = |max_entries: usize, max_bytes: Option<u32>| MemoryCacheConfig {
             max_entries,
-            // the byte budget is not what forces eviction here (see C10)
-            max_memory_bytes: None,
+            max_memory_bytes: max_bytes.map(|b| b as usize),
             default_ttl: Some(HOUR),
             eviction_policy: policy.to_policy(),
             cleanup_interval: YEAR,
@@ -144,9 +143,9 @@ impl Sut {
             ..DiskCacheConfig::new(dir)
         };
         let mut cfg = MultiLayerCacheConfig::new().with_promotion_strategy(strat.to_strategy());
-        cfg = cfg.add_memory_layer(mem(layout.l0_max()));
+        cfg = cfg.add_memory_layer(mem(layout.l0_max(), l0_bytes));
         if let Layout::MemMemDisk { .. } = layout {
-            cfg = cfg.add_memory_layer(mem(MID_CAP));
+            cfg = cfg.add_memory_layer(mem(MID_CAP, None));
         }
         cfg = cfg.add_disk_layer(disk);
         let mut cache = {
